@@ -92,3 +92,4 @@ MANIFEST = {
     "technique": "runtime monitoring: schedule-validity oracle on final state + reference simulator replay of the recorded action history",
     "design_ref": "DESIGN.md section 4 / C07",
 }
+MANIFEST["text"] += " Rounds 7-8: SMTWTP, FJSP and JSSP episodes whose first move is handed out by the environment's own start rule (forced starts against their row's mask, rows replayed by the reference simulators)."
